@@ -575,12 +575,12 @@ Lemma restore_repaired_inv c st p k b ia p' : wf c -> wfst c st -> Inv c st p ->
   restore_repaired c p k b ia = Some p' -> Inv c st p'.
 Proof.
   intros W WS I. unfold restore_repaired.
-  destruct (ia && holds_block (blocks_of p k) b); [intros H; inversion H; subst; exact I|].
   destruct (findi _ (p_addrs p)) as [i|] eqn:F; [|discriminate].
   destruct (faddr_findi _ _ _ F) as (a & Hn & Fa). rewrite Hn.
   destruct (a_excl a) eqn:X; [discriminate|].
   destruct (start_ok c (a_total a) (b_start b)) eqn:S; [|discriminate]. simpl.
   destruct (N.eqb_spec (b_end b) (b_start b + c_bs c - 1)) as [E|E]; [|discriminate]. simpl.
+  destruct (ia && holds_block (blocks_of p k) b); [intros H; inversion H; subst; exact I|].
   destruct (negb (holds_block (blocks_of p k) b) && test_bit (a_bits a) (idx_of c (b_start b))) eqn:HB; [discriminate|].
   destruct (limit_reached c p k) eqn:L; [discriminate|].
   destruct (c_paired c && match blocks_of p k with b0 :: _ => negb (b_ip b0 =? b_ip b) | [] => false end) eqn:P; [discriminate|].
@@ -732,3 +732,69 @@ Section Statements.
   Lemma paired_all k b1 b2 : c_paired c = true -> In b1 (blocks_of p k) -> In b2 (blocks_of p k) -> b_ip b1 = b_ip b2.
   Proof. intros P. apply (i_paired _ _ _ (reach_inv r p0 Hr Hc ops) P). Qed.
 End Statements.
+
+(* ---------- releasing frees every block for reuse ---------- *)
+Lemma release_clears c st p k b : wf c -> wfst c st -> Inv c st p -> In b (blocks_of p k) ->
+  exists a, faddr (p_addrs (release c p k)) (b_ip b) = Some a /\ a_excl a = false /\
+            test_bit (a_bits a) (idx_of c (b_start b)) = false.
+Proof.
+  intros W WS I Hb. destruct (i_blk _ _ _ I _ _ Hb) as (a & F & X & S & E & T).
+  assert (A0 : ainfo (p_addrs p) (b_ip b) (idx_of c (b_start b)) = Some (false, true)) by (apply ainfo_blk; eauto).
+  unfold release, blocks_of in *. destruct (sub_get k (p_subs p)) as [bl|] eqn:G; [|contradiction]. cbn [p_addrs].
+  pose proof (ainfo_release_fold c bl (p_addrs p) (b_ip b) (idx_of c (b_start b))) as A. rewrite A0 in A. simpl in A.
+  assert (FB : forallb (fun b0 => negb ((b_ip b0 =? b_ip b) && (idx_of c (b_start b0) =? idx_of c (b_start b)))) bl = false).
+  { apply not_true_is_false. intros FT. rewrite forallb_forall in FT. specialize (FT b Hb).
+    rewrite !N.eqb_refl in FT. discriminate. }
+  rewrite FB in A. unfold ainfo in A.
+  destruct (faddr (fold_left (release_one c) bl (p_addrs p)) (b_ip b)) as [a1|] eqn:F1; [|discriminate]. simpl in A.
+  inversion A as [[A1 A2]]. exists a1. repeat split; auto.
+Qed.
+
+Lemma release_reuse c st p k b k' : wf c -> wfst c st -> Inv c st p -> In b (blocks_of p k) ->
+  limit_reached c (release c p k) k' = false ->
+  (c_paired c = true -> forall b', In b' (blocks_of (release c p k) k') -> b_ip b' = b_ip b) ->
+  alloc_obs c (release c p k) k' b <> None.
+Proof.
+  intros W WS I Hb L P. pose proof (release_inv c st p k W I) as I'.
+  destruct (release_clears _ _ _ _ _ W WS I Hb) as (a & F & X & T).
+  destruct (i_blk _ _ _ I _ _ Hb) as (_ & _ & _ & S & E & _).
+  pose proof (faddr_some _ _ _ F) as [Fi Fe].
+  destruct (inv_addr _ _ _ a WS I' Fi) as [Htot _].
+  assert (O : obs_addr_ok c b a = true).
+  { unfold obs_addr_ok. rewrite Fe, N.eqb_refl, X, Htot, S, E, N.eqb_refl, T. reflexivity. }
+  unfold alloc_obs. rewrite L.
+  destruct (paired_target c (release c p k) k') as [i|] eqn:PT.
+  - destruct (nth_error (p_addrs (release c p k)) i) as [a1|] eqn:Hn.
+    + destruct (paired_target_some _ _ _ _ _ _ WS I' PT Hn) as [X1 Hp].
+      assert (a1 = a).
+      { unfold paired_target in PT. destruct (blocks_of (release c p k) k') as [|b0 r0] eqn:B; [discriminate|].
+        destruct (c_paired c) eqn:Pc; [|discriminate].
+        assert (a_ip a1 = b_ip b). { rewrite <- (Hp b0) by (simpl; auto). apply P; simpl; auto. }
+        pose proof (faddr_nth _ (inv_nodup _ _ _ WS I') _ _ Hn) as F1. rewrite H, F in F1. congruence. }
+      subst a1. rewrite O. discriminate.
+    + unfold paired_target in PT. destruct (blocks_of (release c p k) k'); [discriminate|].
+      destruct (c_paired c); [|discriminate]. destruct (findi_spec _ _ _ PT) as (? & ? & _). congruence.
+  - destruct (findi (obs_addr_ok c b) (p_addrs (release c p k))) eqn:FI; [discriminate|].
+    pose proof (findi_none _ _ FI a Fi). congruence.
+Qed.
+
+Lemma release_frees_all r p0 ops k : wf_range r -> configure repaired r = Some p0 ->
+  let c := effective r in
+  let p := run repaired c p0 ops in
+  let p' := fst (step repaired c p (ORelease k)) in
+  blocks_of p' k = [] /\
+  forall b, In b (blocks_of p k) ->
+    (forall k', ~ In b (blocks_of p' k')) /\
+    (forall k', limit_reached c p' k' = false ->
+                (c_paired c = true -> forall b', In b' (blocks_of p' k') -> b_ip b' = b_ip b) ->
+                exists p'', alloc_obs c p' k' b = Some p'').
+Proof.
+  intros Hr Hc c p p'. destruct (configure_inv r p0 Hr Hc) as (W & WS & I0).
+  pose proof (reach_inv r p0 Hr Hc ops) as I. fold c p in I.
+  subst p'. cbn [step fst]. split; [rewrite blocks_of_release, N.eqb_refl; reflexivity|].
+  intros b Hb. split.
+  - intros k' H. rewrite blocks_of_release in H. destruct (N.eqb_spec k' k) as [E|NE]; [contradiction|].
+    apply NE. eapply (i_excl _ _ _ I); eauto.
+  - intros k' L P. destruct (alloc_obs c (release c p k) k' b) eqn:A; [eauto|].
+    exfalso. eapply release_reuse; eauto.
+Qed.
